@@ -276,6 +276,16 @@ fn run_cells(ctx: &Ctx) {
             e.push(r.clone());
         }
     }
+    let mut worst_mean_per_b: BTreeMap<u64, serde_json::Value> = BTreeMap::new();
+    for r in &rows {
+        let b = r["b"].as_u64().unwrap();
+        let m = r["mean_over_re"].as_f64().unwrap().abs();
+        let cur = worst_mean_per_b.get(&b).map(|v| v["mean_over_re"].as_f64().unwrap().abs()).unwrap_or(-1.0);
+        if m > cur {
+            worst_mean_per_b.insert(b, r.clone());
+        }
+    }
+    ctx.put_extra("worst_abs_mean_cell_per_b", json!(worst_mean_per_b));
     ctx.put_extra("cells_measured", json!(rows.len()));
     ctx.put_extra("worst_rms_cells_per_b", json!(per_b));
     let worst_mean = rows.iter().max_by(|a, b| a["mean_over_re"].as_f64().unwrap().abs().partial_cmp(&b["mean_over_re"].as_f64().unwrap().abs()).unwrap()).cloned();
